@@ -81,6 +81,33 @@ class Norm:
         if k == "Bin":
             l, r = self.key(e["l"], depth), self.key(e["r"], depth)
             op = e["op"]
+            if op == "|":
+                # flag bytes: an OR of `(c ? BIT : 0)` terms is a map condition -> bits; terms with one condition are merged
+                terms = []
+
+                def flat(x):
+                    x = strip(x)
+                    if isinstance(x, dict) and x.get("k") == "Bin" and x.get("op") == "|":
+                        flat(x["l"])
+                        flat(x["r"])
+                    else:
+                        terms.append(x)
+                flat(e)
+                groups, rest = {}, []
+                for t in terms:
+                    if isinstance(t, dict) and t.get("k") == "Cond" and isinstance(strip(t["a"]).get("v"), int) and strip(t["e"]).get("v") == 0 and not isinstance(strip(t["a"]).get("v"), bool):
+                        ck = self.key(t["c"], depth)
+                        groups[ck] = groups.get(ck, 0) | strip(t["a"])["v"]
+                    elif isinstance(t, dict) and isinstance(t.get("v"), int) and t.get("k") not in ("Call", "OpCall", "Assign") and not isinstance(t.get("v"), bool):
+                        groups[""] = groups.get("", 0) | t["v"]
+                    else:
+                        rest.append(self.key(t, depth))
+                if groups and (len(groups) + len(rest)) >= 1 and len(terms) > 1:
+                    parts = sorted(["(%s?%d:0)" % (c, v) if c else str(v) for c, v in groups.items()] + rest)
+                    out = parts[0]
+                    for p2 in parts[1:]:
+                        out = "(%s|%s)" % (out, p2)
+                    return out
             if op in ("+", "*", "&&", "||", "|", "&", "==", "!="):
                 l, r = sorted([l, r])
             if op == "<<" and r.isdigit() and not l.isdigit():
